@@ -4,7 +4,7 @@ from __future__ import annotations
 
 import ast
 
-from ..absint import App, ClassV, Const, DictV, ExcV, ListV, Sym
+from ..absint import NONE, App, Cfg, ClassV, Const, DictV, ExcV, ListV, ObjV, Sym
 from ..flow import FlowPolicy, exits, run_flow
 from ..repo import AnalysisError, body_walk, call_name, dotted, enclosing_unit, norm, parent, short
 
@@ -316,6 +316,41 @@ def run(ctx):
     ctx.rule("R14.17", "each done callback runs exactly once also when the finishing task is cancelled (task.cancel by another run) while one of its callbacks is suspended: "
              "the remaining callbacks still run, everything recorded for the task is forgotten, and the task ends cancelled", floor=1)
     callback_mutation_table(ctx, program, "R14.17", only=("cancel",))
+
+    ctx.rule("R14.18", "the Home Assistant context of a run is recorded under the run's own task (so that it is forgotten when that task ends): it is stored inside the "
+             "coroutine the task runs, before the function body", floor=2)
+    from .c08 import context_owner_rule
+    context_owner_rule(ctx, program, "R14.18")
+
+    ctx.rule("R14.19", "task.add_done_callback for a function that is already registered replaces its arguments (one callback per function, run with the latest arguments); "
+             "other callbacks keep theirs", floor=2)
+    uid = "function.py::Function.task_add_done_callback"
+    for first in (("A",), ()):
+        heap = {"Function.task2cb": DictV([(Const("T"), DictV([(Const("ctx"), ObjV("actx", "AstEval")), (Const("cb"), DictV([(Const("other"), ListV((ObjV("actx", "AstEval"), ListV((Const("O"),), "tuple"), DictV([])), "list"))]))]))])}
+        pol = FlowPolicy(program, may_raise_all=False, cancel=False)
+        cur = [Cfg(heap=heap)]
+        bad = None
+        for args_ in (first, ("B",)):
+            nxt = []
+            for c0 in cur:
+                o = run_flow(program, uid, pol, args={"cls": ClassV("Function"), "task": Const("T"), "ast_ctx": NONE, "callback": Const("cb_f"), "args": ListV(tuple(Const(x) for x in args_), "tuple"),
+                                                      "kwargs": DictV([])}, heap=dict(c0.heap))
+                for k, c, d in exits(o):
+                    if k != "return":
+                        bad = f"leaves with {d}"
+                    nxt.append(c)
+            cur = nxt
+        for c in cur:
+            cbs = c.heap["Function.task2cb"].get(Const("T")).get(Const("cb"))
+            ent = cbs.get(Const("cb_f")) if isinstance(cbs, DictV) else None
+            got = [x.v for x in ent.items[1].items] if isinstance(ent, ListV) and len(ent.items) > 1 and isinstance(ent.items[1], ListV) else repr(ent)
+            oth = cbs.get(Const("other")) if isinstance(cbs, DictV) else None
+            if got != ["B"]:
+                bad = f"the callback is kept with the arguments {got}, specified ['B'] (the latest registration)"
+            elif not (isinstance(oth, ListV) and [x.v for x in oth.items[1].items] == ["O"]):
+                bad = f"another callback's entry changed to {oth!r}"
+        ctx.check(bool(cur) and bad is None, "R14.19", uid, f"re-registration after arguments {list(first)}", msg=f"task.add_done_callback(t, f, {', '.join(first) or '<none>'}) then (t, f, 'B'): {bad or 'no exit'}",
+                  key=f"re-registration {first}", node=program.func(uid), rel="function.py")
 
     ctx.rule("R14.8", "the reaper and waiter service loops survive a failing command: after any exception of one iteration the next command is still taken from the queue", floor=2)
     for uid, q in (("function.py::Function.init.task_reaper", "reaper_q.get"), ("function.py::Function.init.task_waiter", "waiter_q.get")):
